@@ -4,7 +4,9 @@ Spec: Markup.tla (document trees, numbering as coded, NumberingOK / ObservedOK).
 of the bounded shape (leaves word / media, inner nodes link / inline style / block, depth <= 2, pairs of
 depth-1 trees).  TLC enumerates the documents; the pub driver serialises each to HTML, Markdown, gemtext and
 plain text where expressible, builds a post around it (sometimes with attachments), reads the numbers back
-from the full rendering at three widths and probes SelectLink for -1..N+2.  T_Markup judges.
+from the full rendering at three widths and probes SelectLink for -1..N+2.  T_Markup judges.  Numbers as
+they are typed (digits, then Enter or '.'; also numbers beyond every integer type) run as key sessions of
+UI.tla on real pages and are judged by T_UI.
 """
 import vlib
 from checks.common import run_harness
@@ -52,6 +54,26 @@ def run(ctx):
         res.sample({k: e[k] for k in ("markup", "doc", "w", "marks", "sel")})
     res.assumptions = ["numbers are read next to tokens in reading order; a link-bearing node's number follows its own text",
                        "HTML realisations avoid nestings the HTML parser restructures (anchor in anchor, heading in heading)"]
+    # numbers as they are typed: digits, then Enter or '.', on real pages (UI.tla; also numbers beyond every integer type)
+    from checks import uidrv
+    kevs, kbad = uidrv.number_sessions(ctx, res)
+    cur = None
+    typed = {}
+    for i, e in enumerate(kevs):
+        if e["ev"] == "reset":
+            cur = {"world": e["world"], "start": e["start"], "keys": []}
+        else:
+            cur["keys"] = cur["keys"] + [e.get("k", "hookexit")]
+            if e.get("k") in ("enter", "dot"):
+                res.case(["typed", cur["world"], cur["start"], cur["keys"]])
+                res.traces += 1
+        typed[i + 1] = dict(cur)
+    res.extra["typed_number_sessions"] = sum(1 for e in kevs if e["ev"] == "reset")
+    for b in kbad:
+        e, s = kevs[b["line"] - 1], typed[b["line"]]
+        sig = {"monitor": "T_UI", "why": b["why"], "key": e.get("k")}
+        path = vlib.save_replay(ctx.pid, "typed-l%d" % b["line"], {"world": s["world"], "start": s["start"], "keys": s["keys"], "rejected": e})
+        res.violations.append((sig, path, "world %s start %s keys %s: %s; observed %s" % (s["world"], s["start"], "".join(k if len(k) == 1 else " " + k + " " for k in s["keys"]), b["why"], e.get("obs"))))
     for b in bad:
         e = links[b["line"] - 1]
         labs = [m.get("n") for m in e["marks"] if m["t"] == "lab"]
